@@ -11,8 +11,8 @@ import (
 // file made of arbitrary bytes: error or answer; no panic, no allocation out of proportion.
 // Layout: headerSize u32 | magic(8) version u64 meta numPrefixes u64 (prefix u16, offset u64)* |
 // buckets: numHashes u32, hashes u64*.
-// Symbolic: header size, magic, version, numPrefixes, bucket offsets, every content byte, the
-// key hash. Structure-aware candidates: the 2-byte prefixes (they index a 65536-entry table and
+// Symbolic: header size, version, numPrefixes, bucket offsets, every content byte, the
+// key hash. Structure-aware candidates: the magic (right / one byte off), the 2-byte prefixes (they index a 65536-entry table and
 // are concretised). The metadata section is empty (arbitrary metadata is C12.meta.decode).
 
 var verifC12SigHash uint64
@@ -36,12 +36,20 @@ func VerifC12Bucketteer() {
 		// known defect: the header is allocated from the size field before anything is checked
 		verifKnownFinding("C12-bucketteer-header-alloc", hs > uint32(limit))
 	}
+	if n >= 4+8 {
+		// the magic is printed with string(magicBuf) in the error path (strings are concrete
+		// in the engine): correct magic, or one byte off
+		copy(data[4:12], _Magic[:])
+		if verifChoice("magic", 2) == 1 {
+			data[4+7] ^= 1
+		}
+	}
 	if n >= 4+17 {
 		verifAssume(data[4+16] == 0) // no metadata pairs
 	}
 	if n >= 4+H {
 		for k := 0; k < K; k++ {
-			p := prefCands[verifChoice("prefix", len(prefCands))]
+			p := prefCands[verifChoice("prefix", verifParam("prefcands", len(prefCands)))]
 			copy(data[4+25+10*k:], p[:])
 		}
 	}
@@ -55,7 +63,7 @@ func VerifC12Bucketteer() {
 	verifAssert(r != nil && r.prefixToOffset != nil && r.contentReader != nil && r.meta != nil, "C12.bucketteer: NewReader returned an incomplete reader")
 	_ = r.Meta()
 	var sig [64]byte
-	p := prefCands[verifChoice("sigprefix", len(prefCands))]
+	p := prefCands[verifChoice("sigprefix", verifParam("prefcands", len(prefCands)))]
 	sig[0], sig[1] = p[0], p[1]
 	verifC12SigHash = verifU64("sighash")
 	has, err := r.Has(sig)
